@@ -20,7 +20,8 @@ RULE = ('each case = 15-60 header-carrying calls (send_headers, push_stream) on 
         '{0,1,64,4096,65536} alone or together with other settings, once or repeated; non-trivial = at least one raising call '
         'followed by successfully decoded blocks; distinct = hash of the call list')
 MINIMA = {'blocks_decoded_and_matched': 15000, 'raising_calls_judged': 6000, 'encoder_snapshots_compared': 6000,
-          'table_size_changes_delivered': 1500, 'blocks_after_raising_call': 6000}
+          'table_size_changes_delivered': 1500, 'blocks_after_raising_call': 6000,
+          'blocks_spanning_continuation_frames': 300}
 
 
 def n_cases(tier):
@@ -79,6 +80,15 @@ def run_case(idx, rng, tier, rep):
 
     def fields(n):
         return [rng.choice(pool) for _ in range(n)]
+
+    def maybe_big():
+        """Now and then a field that makes the block spill into CONTINUATION frames (the first frame may carry priority
+        fields or a promised id in front of its fragment)."""
+        if rng.random() < 0.05:
+            rep.count('blocks_spanning_continuation_frames')
+            n = rng.choice([16350, 16380, 16384, 16400, 20000, 33000])
+            return [(b'x-big', bytes(rng.choice(b'0123456789abcdefghijklmnopqrstuvwxyz') for _ in range(n)))]
+        return []
 
     orig_call = t.call
 
@@ -189,10 +199,14 @@ def run_case(idx, rng, tier, rep):
             if kind == 'ok':
                 sid = h.e_next
                 h.e_next += 2
-                hs = REQ[:] + fields(rng.randrange(0, 6)) + [tagf]
+                hs = REQ[:] + fields(rng.randrange(0, 6)) + maybe_big() + [tagf]
                 es = rng.random() < 0.4
-                res = t.call('send_headers', sid, hs, end_stream=es)
-                calls.append(('request', sid, len(hs), es))
+                pkw = {}
+                if rng.random() < 0.3:
+                    pkw = rng.choice([{'priority_weight': 16}, {'priority_depends_on': 0, 'priority_exclusive': False},
+                                      {'priority_weight': 256, 'priority_depends_on': max(0, sid - 2), 'priority_exclusive': True}])
+                res = t.call('send_headers', sid, hs, end_stream=es, **pkw)
+                calls.append(('request', sid, len(hs), es, sorted(pkw)))
                 if res.exc is not None:
                     if isinstance(res.exc, h2.exceptions.TooManyStreamsError):
                         st['alive'] = False
@@ -343,7 +357,7 @@ def run_case(idx, rng, tier, rep):
                 except Exception:      # noqa
                     continue
                 h.e_next = pid + 2
-                hs = REQ[:] + fields(rng.randrange(0, 6)) + [tagf]
+                hs = REQ[:] + fields(rng.randrange(0, 6)) + maybe_big() + [tagf]
                 res = t.call('push_stream', par, pid, hs)
                 calls.append(('push', par, pid))
                 if res.exc is not None:
